@@ -116,6 +116,59 @@ def replay(pyhf, backend, precision, chunk, ainv, seed):
                                 break
             if bad:
                 break
+        # wide lane: the same interpolator class over 2 systematics x 2 histograms x 2 bins whose entries differ (second bin:
+        # same nominal and up, another down; second histogram: bins swapped).  Every entry must equal what the single-entry
+        # interpolator (validated above against the published formula) returns for that entry, and the scalar reference.
+        if not bad and case["hist"] and case["hist"][-1]["op"] != "switch":
+            tl = pyhf.tensorlib
+            dn2 = dn * 0.75 + 0.0625 * nom
+            ent = {(0, 0, 0): (dn, nom, up), (0, 0, 1): (dn2, nom, up), (0, 1, 0): (dn2, nom, up), (0, 1, 1): (dn, nom, up),
+                   (1, 0, 0): (up, nom, dn), (1, 0, 1): (up, nom, dn2), (1, 1, 0): (up, nom, dn2), (1, 1, 1): (up, nom, dn)}
+            wide = [[[[ent[(s_, h_, b_)][k_] for b_ in range(2)] for k_ in range(3)] for h_ in range(2)] for s_ in range(2)]
+            al = [float(frac(a)) for a in case["hist"][-1]["alphas"]]
+            aset = tl.astensor([al, [-a for a in al]])
+            try:
+                gw = tl.tolist(get(CODEKEY[code])(wide, **kw)(aset))
+                sw = tl.tolist(get(CODEKEY[code], do_tensorized_calc=False)(wide, **kw)(aset))
+                single = {}
+                for key_, (d_, n_, u_) in ent.items():
+                    trip = (d_, n_, u_)
+                    if trip not in single:
+                        single[trip] = tl.tolist(get(CODEKEY[code])([[[[d_], [n_], [u_]]]], **kw)(tl.astensor([al, [-a for a in al]])))
+            except Exception as e:  # noqa: BLE001
+                add(f"interpolator over several histograms and bins failed: {type(e).__name__}: {e}", {"case": case, "hset": wide}, tags + ["evalfail", "wide"])
+            else:
+                out["calls"] += 1
+                for (s_, h_, b_), trip in ent.items():
+                    for i in range(len(al)):
+                        g = gw[s_][h_][i][b_]
+                        ref = single[trip][0][0][i][0] if s_ == 0 else tl.tolist(get(CODEKEY[code])([[[[trip[0]], [trip[1]], [trip[2]]]]], **kw)(tl.astensor([[-a for a in al]])))[0][0][i][0]
+                        sl = sw[s_][h_][i][b_]
+                        if not (abs(g - ref) <= tol * max(1.0, abs(ref))) or not (abs(g - sl) <= tol * max(1.0, abs(sl))):
+                            add(f"code {CODEKEY[code]} over several histograms/bins: an entry differs from the single-entry interpolator or the scalar reference",
+                                {"case": case, "hset": wide, "alphas": al, "entry": [s_, h_, b_], "got": g, "single": ref, "scalar": sl}, tags + ["wide"])
+                            bad = True
+                            break
+                    if bad:
+                        break
+        # ... and one systematic alone (nominal and up identical in every entry, only down differs), both signs of alpha
+        if not bad and case["hist"] and case["hist"][-1]["op"] != "switch":
+            try:
+                for sign in (1.0, -1.0):
+                    arow = [sign * a for a in al]
+                    g1 = tl.tolist(get(CODEKEY[code])([wide[0]], **kw)(tl.astensor([arow])))
+                    for (s_, h_, b_), trip in ent.items():
+                        if s_ != 0 or bad:
+                            continue
+                        ref1 = tl.tolist(get(CODEKEY[code])([[[[trip[0]], [trip[1]], [trip[2]]]]], **kw)(tl.astensor([arow])))
+                        for i in range(len(al)):
+                            if not (abs(g1[0][h_][i][b_] - ref1[0][0][i][0]) <= tol * max(1.0, abs(ref1[0][0][i][0]))):
+                                add(f"code {CODEKEY[code]} over several histograms/bins (one systematic): an entry differs from the single-entry interpolator",
+                                    {"case": case, "hset": [wide[0]], "alphas": arow, "entry": [h_, b_], "got": g1[0][h_][i][b_], "single": ref1[0][0][i][0]}, tags + ["wide"])
+                                bad = True
+                                break
+            except Exception as e:  # noqa: BLE001
+                add(f"interpolator over several histograms and bins failed: {type(e).__name__}: {e}", {"case": case}, tags + ["evalfail", "wide"])
         if len(case["hist"]) >= 2:
             out["nontrivial"] += 1
     return out
